@@ -1,10 +1,19 @@
 #!/bin/sh
 # try_seed.sh <patch.diff> <PID>... : applies the patch to /repo, runs the quick checks, undoes it.
+# Evidence and replay files of these runs go to a scratch directory (VERIF_OUT), never to /verif/evidence:
+# the committed evidence must always describe the unchanged tree.
 P="$1"; shift
 [ -z "$(git -C /repo status --porcelain)" ] || { echo "/repo has uncommitted changes; refusing"; exit 2; }
 git -C /repo apply "$P" || { echo "patch does not apply"; exit 2; }
+OUT="$(mktemp -d /var/tmp/verif-seed.XXXXXX)"
 for pid in "$@"; do
-  (cd /verif && ./verif check "$pid" --tier quick 2>&1 | grep -E "VIOLATION|HELD|KNOWN|UNPROVED|CHECKER|obligation" | head -8; echo "exit=$?")
+  out="$(cd /verif && VERIF_OUT="$OUT" ./verif check "$pid" --tier quick 2>&1)"; rc=$?
+  echo "$out" | grep -E "VIOLATION|HELD|KNOWN|UNPROVED|CHECKER|obligation" | head -8
+  echo "$pid exit=$rc"
+  if [ -f "$OUT/evidence/$pid.json" ]; then
+    python3 -c "import json,sys;e=json.load(open(sys.argv[1]));c=e['coverage'];print('  evidence: level=%s obligations=%s discharged=%s violations=%s'%(e['level'],c.get('obligations'),c.get('discharged'),e.get('violations')))" "$OUT/evidence/$pid.json"
+  fi
 done
-git -C /repo checkout -- . 
+git -C /repo checkout -- .
 git -C /repo status --short | head -3
+rm -rf "$OUT"
